@@ -237,3 +237,80 @@ def assemble(ex, prelude, fns_spec, loops_spec, stubs, top=None):
     info = {'contracted': sorted(used_fn), 'defaulted': defaulted,
             'loops_contracted': sorted('%s#%d' % k for k in used_loop)}
     return text, linemap, info
+
+
+# --------------------------------------------------------------------------
+# vacuity guard: reachability of every precondition
+
+def split_params(header):
+    mask = code_mask(header)
+    i = header.find('(')
+    j = match_brace(header, mask, i, '(', ')')
+    inner = header[i + 1:j]
+    parts, depth, cur = [], 0, ''
+    for c in inner:
+        if c in '(<[':
+            depth += 1
+        elif c in ')>]':
+            depth -= 1
+        if c == ',' and depth == 0:
+            parts.append(cur.strip())
+            cur = ''
+        else:
+            cur += c
+    if cur.strip():
+        parts.append(cur.strip())
+    return parts
+
+
+def reach_module(ex, fns_spec):
+    """`proof fn reach_X(..) { assume(<requires of X>); assert(false); }` for every contracted
+    function with a requires clause.  Verus must REJECT every one of them: a contradictory
+    precondition would make its function verify vacuously."""
+    out = ['mod reach {', 'use super::*;', 'use vstd::prelude::*;', 'verus! {']
+    names = []
+    for it in ex['items']:
+        if it.kind != 'fn':
+            continue
+        sp = fns_spec.get(it.name)
+        if not sp or not sp.get('requires'):
+            continue
+        params = []
+        for prm in split_params(it.header):
+            if re.match(r'^&?\s*(mut\s+)?self$', prm.replace("&'_ ", '&')) or prm in ('self', '&self', '&mut self'):
+                owner = {'Parser': 'Parser', 'TokenSet': 'TokenSet', 'SyntaxKind': 'SyntaxKind'}[it.owner]
+                params.append('s: %s' % owner)
+                continue
+            nm, ty = prm.split(':', 1)
+            nm = nm.replace('mut ', '').strip()
+            ty = ty.strip()
+            ty = re.sub(r"^&\s*mut\s+Parser(<'_>)?$", 'Parser', ty)
+            params.append('%s: %s' % (nm, ty))
+        req = sp['requires']
+        req = re.sub(r'\*old\((\w+)\)', lambda m: 's' if m.group(1) == 'self' else m.group(1), req)
+        req = re.sub(r'old\((\w+)\)', lambda m: 's' if m.group(1) == 'self' else m.group(1), req)
+        req = re.sub(r'\*self\b', 's', req)
+        req = re.sub(r'\bself\b', 's', req)
+        fname = 'reach_' + re.sub(r'\W+', '_', it.name)
+        names.append((fname, it.name))
+        out.append('proof fn %s(%s)\n    requires %s,\n{\n    assert(false);\n}' % (fname, ', '.join(params), req.rstrip(',')))
+    out += ['} // verus!', '} // mod reach']
+    return '\n'.join(out) + '\n', names
+
+
+def split_top(s):
+    """split a clause list on top-level commas"""
+    parts, depth, cur = [], 0, ''
+    for c in s:
+        if c in '([{':
+            depth += 1
+        elif c in ')]}':
+            depth -= 1
+        if c == ',' and depth == 0:
+            parts.append(cur)
+            cur = ''
+        else:
+            cur += c
+    if cur.strip():
+        parts.append(cur)
+    return parts
